@@ -335,6 +335,9 @@ class Gen:
         yield "watchdog 60s"
         yield "clock %d" % self.now
         tsize = r.choice([512, 512, 4096, 1 << 20])
+        if getattr(self, "ep", None) is not None:
+            # every other episode of a run has small tables, whatever the other choices are
+            tsize = 512 if self.ep % 2 == 0 else r.choice([4096, 1 << 20])
         # small tables + few partitions: fragments span several tables, keys live in older tables
         parts = r.choice([3, 3, 7]) if tsize == 512 else r.choice([7, 23])
         dms = getattr(self, "dms", ["dm", "a.b", "dm2"])      # a DMap name may contain dots
@@ -347,6 +350,22 @@ class Gen:
             keys = keys + [b"K" * 255]          # the longest key the store takes (the length is kept in one byte)
         pdestroy = getattr(self, "pdestroy", 0.005)
         ver = 0
+        if tsize == 512 and not getattr(self, "keyset", None):
+            # directed: fragments of several tables whose EARLIER tables yield nothing to a scan - every entry in them was
+            # overwritten (no compaction yet), or none matches the pattern: a page may come back empty with a cursor that
+            # is not 0, the iteration goes on to the later tables
+            dk = [b"s%02d" % i for i in range(18)]
+            for k in dk:
+                yield "c.own dm %s" % hx(k)
+                ver += 1
+                yield "c.put emb %d dm %s %s" % (r.randrange(n), hx(k), hx(b"v%d" % ver + b"x" * 180))
+            for k in dk[:14]:
+                yield "c.own dm %s" % hx(k)
+                ver += 1
+                yield "c.put emb %d dm %s %s" % (r.randrange(n), hx(k), hx(b"v%d" % ver + b"x" * 180))
+            for pat in ("*", hx(b"^s1[4-7]$"), hx(b"^s05$")):
+                yield "c.scanall %s %d dm %s %d" % (r.choice(["emb", "cli"]), r.randrange(n), pat, r.choice([1, 2, 100]))
+            yield "c.rawscan dm %s %d" % (hx(b"^s1[4-7]$"), r.choice([1, 100]))
         for _ in range(nops):
             dm = r.choice(dms)
             key = hx(r.choice(keys))
